@@ -40,6 +40,8 @@ TRUSTED = [
 ASSUMPTIONS = [
     "accelerations used for exact correspondence are integers or dyadic rationals (2.5, 5.5, 3.25, 7.75, 10.5)",
     "Gaussian loop: statements are conditional on the loop returning (termination is C04's concern)",
+    "VD-Poisson: the model compares the exact rational value of the double `rows*cols/count` the code computes with the "
+    "exact values of the doubles R and tol (float subtraction of nearby doubles is exact)",
     "equispaced: tie-fragile configurations (non-dyadic adjusted acceleration with an exact half-integer grid point or an "
     "exact integer grid length) are checked by the oracle bound only",
 ]
@@ -321,13 +323,13 @@ def gen_cases(ctx: Ctx) -> list[dict]:
                           "shape": shape, "seed": seed, "infeasible_by_design": bad})
 
     q = ctx.budget
-    add("FastMRIRandom", q(9, 60), None)
-    add("CartesianRandom", q(6, 40), None, cart=True)
-    add("FastMRIEquispaced", q(12, 80), None, infeasible=0.15)
-    add("CartesianEquispaced", q(9, 60), None, cart=True, infeasible=0.15)
-    add("Gaussian1D", q(12, 80), None, infeasible=0.2)
-    add("Gaussian2D", q(6, 30), [16, 24, 32, 33, 48, 64], two_d=True, infeasible=0.15)
-    add("VariableDensityPoisson", q(9, 40), [32, 40, 48, 64, 96, 128], two_d=True)
+    add("FastMRIRandom", q(18, 90), None)
+    add("CartesianRandom", q(12, 60), None, cart=True)
+    add("FastMRIEquispaced", q(24, 120), None, infeasible=0.15)
+    add("CartesianEquispaced", q(18, 90), None, cart=True, infeasible=0.15)
+    add("Gaussian1D", q(24, 120), None, infeasible=0.2)
+    add("Gaussian2D", q(9, 36), [16, 24, 32, 33, 48, 64], two_d=True, infeasible=0.15)
+    add("VariableDensityPoisson", q(12, 48), [32, 40, 48, 64, 96, 128], two_d=True)
     add("FastMRIMagic", q(6, 40), None)
     add("CartesianMagic", q(3, 20), None, cart=True)
     if ctx.thorough:
@@ -351,7 +353,7 @@ def _run_cases(ctx: Ctx, store: dict):
                 continue
             store["cases"].append(c)
         # equispaced enumeration on the implementation
-        widths = list(range(32, 401)) if ctx.thorough else sorted(set(range(32, 401, 23)) | {33, 399, 400})
+        widths = list(range(32, 401)) if ctx.thorough else sorted(set(range(32, 401, 13)) | {33, 399, 400})
         pairs = [("FastMRIEquispaced", R, cf) for R in ENUM_R for cf in ENUM_CF]
         store["enum"] = []
         for i in range(0, len(pairs), 4):
